@@ -1613,8 +1613,13 @@ def classify(case, res):
             labels.append(f"{op}:init-" + res["init"])
         elif op != "setctx":
             kinds = set()
-            for c in res["calls"]:
-                kinds.add("raise-" + c["e"] if "e" in c else "skip" if c.get("same") else "update")
+            for w, c in zip(case["items"], res["calls"]):
+                if "e" in c:
+                    kinds.add("raise-" + c["e"])
+                elif op == "dc":
+                    kinds.add("no-context" if w is None else "unchanged" if weq(c["ctx"], w) else "deleted")
+                else:
+                    kinds.add("skip" if c.get("same") else "update")
             labels += [f"{op}:{k}" for k in sorted(kinds)]
         if op == "uc":
             a = case["args"]
